@@ -184,6 +184,9 @@ def for_parts(n):
                 if kind(p) == "TupleStruct" and p["path"].get("def", "").endswith("Option::Some"):
                     pat = p["pats"][0] if p["pats"] else None
                     body = a["body"]
+                elif kind(p) == "Struct" and p["path"].get("def", "").endswith("Option::Some"):
+                    pat = p["fields"][0]["pat"] if p["fields"] else None
+                    body = a["body"]
             break
     return pat, it, body
 
